@@ -18,6 +18,7 @@ import OFV.Proofs.C09Ext4
 import OFV.Proofs.C09Seq
 import OFV.Proofs.C09Bct4
 import OFV.Proofs.C09Enc
+import OFV.Proofs.C09Sum
 
 namespace OFV.C09
 open OFV.Model.C09 OFV.Spec.C09
@@ -404,6 +405,29 @@ theorem binary_code_transform_term_encoded (c : Code) (v : List Nat) (wq s : Nat
     have := hterm x
     rw [hact] at this
     exact this
+
+/-- the loop over the terms and the final `compress()` add up the terms (tolerance-free Model): when every
+transformed term has the matrix element `F term`, the result has the sum -/
+theorem binary_code_transform_sum (c : Code) (h R : Model.Op) (F : Model.Term × GQ → GQ) (s x : List Nat)
+    (hF : ∀ tc ∈ h, ∀ img, bctTerm 0 c (makeParityList c) tc.1 tc.2 = .ok img → Sem.den .qubit img s x = F tc)
+    (hR : binaryCodeTransform 0 h c = .ok R) : Sem.den .qubit R s x = (h.map F).sum :=
+  bct_den_sum c h R F s x hF hR
+
+/-- **binary_code_transform_sound** (tolerance-free Model): let the code decode what it encodes on a set
+`dom` of occupation vectors (`d(e(v)) = v`), and let every term of the Hamiltonian `h` map Fock states
+of `dom` to Fock states of `dom` or to 0.  Then for `v, u ∈ dom` the transformed operator `R` has
+`⟨e(u)| R |e(v)⟩ = ⟨u| h |v⟩`, the Spec matrix element of the fermion operator. -/
+theorem binary_code_transform_sound (c : Code) (h R : Model.Op) (dom : List Nat → Prop)
+    (hsh : c.dec.length = c.nm) (hpoly : ∀ e ∈ c.dec, ∃ p, e = .poly p) (hne : ∀ e ∈ c.dec, ∀ t ∈ e.toPoly, t ≠ [])
+    (hdom : ∀ v, dom v → v.length = c.nm ∧ (∀ x ∈ v, x ≤ 1) ∧ ValidOn c v)
+    (hwf : ∀ tc ∈ h, ∀ f ∈ tc.1, f.2 ≤ 1 ∧ f.1 < c.nm)
+    (v u : List Nat) (hv : dom v) (hu : dom u) (wq xq s out : Nat)
+    (hw : bitsOf wq = encFn c v) (hx : bitsOf xq = encFn c u)
+    (hs : ∀ j, s.testBit j = (v.getD j 0 == 1)) (ho : ∀ j, out.testBit j = (u.getD j 0 == 1))
+    (hpres : ∀ tc ∈ h, ∀ k s', Spec.actFTerm tc.1 s = some (k, s') → dom (occList s' c.nm))
+    (hR : binaryCodeTransform 0 h c = .ok R) :
+    Sem.den .qubit R [wq] [xq] = Spec.melF h out s :=
+  bct_sound_encoded c h R dom hsh hpoly hne hdom hwf v u hv hu wq xq s out hw hx hs ho hpres hR
 
 /-! ## the literal segment codes (tables re-extracted from the source on every run) -/
 
